@@ -34,6 +34,19 @@ def _try(fn):
         return ("exc", type(e).__name__)
 
 
+def _defer(fn):
+    return ("defer", fn)
+
+
+def _force(s, reverse):
+    """Evaluate the deferred probes of a signature in forward or reverse order; the result is in canonical order."""
+    idx = [i for i, (k, v) in enumerate(s) if isinstance(v, tuple) and len(v) == 2 and v[0] == "defer"]
+    out = list(s)
+    for i in (reversed(idx) if reverse else idx):
+        out[i] = (s[i][0], _try(s[i][1][1]))
+    return out
+
+
 def sig_equal(a, b):
     """Entry-wise comparison of two signatures; returns the first differing key or None."""
     ka, kb = [k for k, _ in a], [k for k, _ in b]
@@ -143,7 +156,9 @@ class ObjRun:
         return obj(**{n: V[n] for n in step["names"]})
 
     # ------------------------------------------------------------------ behavioural signature
-    def sigma(self, obj, fixed, from_joint=False):
+    def sigma(self, obj, fixed, from_joint=False, reverse=False):
+        """Behavioural signature.  The probes are collected first and then evaluated in forward or in REVERSE order: probes
+        are observers and must not influence one another, so the twin is signed in the opposite order to the object."""
         from cuqi.distribution import JointDistribution, Distribution, Posterior
         from cuqi.likelihood import Likelihood
         from cuqi.density import EvaluatedDensity
@@ -153,54 +168,54 @@ class ObjRun:
         if isinstance(obj, Model):
             s.append(("args", ("ok", list(obj._non_default_args))))
             x = np.linspace(-1, 1, obj.domain_dim)
-            s.append(("forward", _try(lambda: _f(obj.forward(x)))))
+            s.append(("forward", _defer(lambda: _f(obj.forward(x)))))
             s.append(("range_dim", ("ok", float(obj.range_dim))))
-            return s
+            return _force(s, reverse)
         if isinstance(obj, EvaluatedDensity):
-            s.append(("value", _try(lambda: _f(obj.logd()))))
+            s.append(("value", _defer(lambda: _f(obj.logd()))))
             s.append(("name", ("ok", obj.name)))
-            return s
-        names = _try(lambda: list(obj.get_parameter_names()))
+            return _force(s, reverse)
+        names = _try(lambda: list(obj.get_parameter_names()))  # (needed for control flow)
         s.append(("parameter_names", names))
         pn = names[1] if names[0] == "ok" else []
         have = all(n in vals for n in pn)
         if isinstance(obj, JointDistribution) and not isinstance(obj, Distribution):
-            s.append(("logd", _try(lambda: _f(obj.logd(**{n: vals[n] for n in pn}))) if have else ("ok", "n/a")))
+            s.append(("logd", _defer(lambda: _f(obj.logd(**{n: vals[n] for n in pn}))) if have else ("ok", "n/a")))
             for n in pn:
                 def c1(n=n):
                     r = obj(**{n: vals[n]})
                     return [type(r).__name__] + list(r.get_parameter_names())
-                s.append(("cond:" + n, _try(c1)))
-            return s
-        s.append(("name", _try(lambda: obj.name)))
-        s.append(("dim", _try(lambda: float(obj.dim) if np.isscalar(obj.dim) else [float(x) for x in obj.dim])))
+                s.append(("cond:" + n, _defer(c1)))
+            return _force(s, reverse)
+        s.append(("name", _defer(lambda: obj.name)))
+        s.append(("dim", _defer(lambda: float(obj.dim) if np.isscalar(obj.dim) else [float(x) for x in obj.dim])))
         if isinstance(obj, Distribution):
-            s.append(("cond_vars", _try(lambda: list(obj.get_conditioning_variables()))))
-            s.append(("is_cond", _try(lambda: bool(obj.is_cond))))
+            s.append(("cond_vars", _defer(lambda: list(obj.get_conditioning_variables()))))
+            s.append(("is_cond", _defer(lambda: bool(obj.is_cond))))
         if have:
-            s.append(("logd", _try(lambda: _f(obj.logd(**{n: vals[n] for n in pn})))))
+            s.append(("logd", _defer(lambda: _f(obj.logd(**{n: vals[n] for n in pn})))))
             if len(pn) == 1:
-                s.append(("logd_pos", _try(lambda: _f(obj.logd(vals[pn[0]])))))
-                s.append(("gradient", _try(lambda: _f(obj.gradient(vals[pn[0]])))))
+                s.append(("logd_pos", _defer(lambda: _f(obj.logd(vals[pn[0]])))))
+                s.append(("gradient", _defer(lambda: _f(obj.gradient(vals[pn[0]])))))
         if isinstance(obj, Distribution) and "sqrtprec" in dir(type(obj)) and not isinstance(obj, Posterior):
             def sq():
                 if obj.is_cond:
                     return "conditional"
                 m_ = obj.sqrtprec
                 return _f(m_.toarray() if hasattr(m_, "toarray") else m_)
-            s.append(("sqrtprec", _try(sq)))
+            s.append(("sqrtprec", _defer(sq)))
         if isinstance(obj, Distribution) and not isinstance(obj, Posterior):
             def draw():
                 return _f(obj.sample(1, rng=np.random.RandomState(7)))
-            s.append(("sample", _try(draw)))
+            s.append(("sample", _defer(draw)))
         if isinstance(obj, (Distribution, Likelihood)) and pn:
             n0 = pn[0]
             def c1():
                 r = obj(**{n0: vals[n0]})
                 return [type(r).__name__] + (list(r.get_parameter_names()) if hasattr(r, "get_parameter_names") else [])
             if n0 in vals:
-                s.append(("cond:" + n0, _try(c1)))
-        return s
+                s.append(("cond:" + n0, _defer(c1)))
+        return _force(s, reverse)
 
     # ------------------------------------------------------------------ pool handling
     def add(self, obj, kind, path, fixed, root="J"):
@@ -209,7 +224,7 @@ class ObjRun:
             self.ctx.count("objects_discarded_after_fault")
             return None                      # an object produced while a callable misbehaved is not kept
         tw, G = self.twin_of(o)
-        o.twin_sig = self.sigma(tw, o.fixed, o.root == "J")
+        o.twin_sig = self.sigma(tw, o.fixed, o.root == "J", reverse=True)
         self.pool.append(o)
         if len(self.pool) > 12:
             # retire the oldest derived object (never the roots)
@@ -866,7 +881,7 @@ def _short(v):
         return str(val)[:80]
 
 
-TAGS = {"lin_step": ["y.cov"], "selfnamed": ["y.cov"], "cov_sdt": ["y.cov"], "cov_sd": ["y.cov"], "direct_param": ["y.cov"], "sigdep_x": ["x.prec", "y.cov"], "reg_d": ["x.prec"], "lin_geom": ["y.cov"], "lognormal_cov_s": ["x.cov"], "lin_sqrtprecF": ["y.cov"], "lin_s": ["y.cov"], "lin_d_s": ["x.prec", "y.cov"], "gmrf_d_s": ["x.prec", "y.prec"], "lmrf_d": ["x.scale"],
+TAGS = {"kl_nonlin": ["y.cov"], "lin_step": ["y.cov"], "selfnamed": ["y.cov"], "cov_sdt": ["y.cov"], "cov_sd": ["y.cov"], "direct_param": ["y.cov"], "sigdep_x": ["x.prec", "y.cov"], "reg_d": ["x.prec"], "lin_geom": ["y.cov"], "lognormal_cov_s": ["x.cov"], "lin_sqrtprecF": ["y.cov"], "lin_s": ["y.cov"], "lin_d_s": ["x.prec", "y.cov"], "gmrf_d_s": ["x.prec", "y.prec"], "lmrf_d": ["x.scale"],
         "two_lik": ["y2.cov"], "nonlin": ["y.cov"], "xz_s": ["y.cov"], "laplace_b": ["x.scale"],
         "mean_m": ["x.mean", "y.cov"], "cmrf_d": ["x.scale"], "lognormal": ["y.cov"]}
 
